@@ -109,16 +109,21 @@ fn export_req<K: Kmer + Send + Sync>(a: &[&str]) -> String {
     static COUNTER: std::sync::atomic::AtomicUsize = std::sync::atomic::AtomicUsize::new(0);
     let dir = std::env::temp_dir();
     let stem = format!("dbg-harness-{}-{}", std::process::id(), COUNTER.fetch_add(1, std::sync::atomic::Ordering::SeqCst));
-    let (p1, p2) = (dir.join(format!("{}.gfa", stem)), dir.join(format!("{}.tags.gfa", stem)));
+    let (p1, p2, p3) = (dir.join(format!("{}.gfa", stem)), dir.join(format!("{}.tags.gfa", stem)), dir.join(format!("{}.dot", stem)));
     g.to_gfa(&p1).unwrap();
     g.to_gfa_with_tags(&p2, |n: &debruijn::graph::Node<K, u32>| format!("LN:i:{}\tDA:i:{}", n.len(), n.data())).unwrap();
     let f1 = std::fs::read(&p1).unwrap();
     let f2 = String::from_utf8(std::fs::read(&p2).unwrap()).unwrap();
+    // the dot export and `Debug` of every node (not named by the property; modelled and compared all the same)
+    g.to_dot(&p3, &|d: &u32| d.to_string());
+    let f3 = String::from_utf8(std::fs::read(&p3).unwrap()).unwrap();
+    let dbg: Vec<String> = g.iter_nodes().map(|n| format!("{:?}", n)).collect();
     let _ = std::fs::remove_file(&p1);
     let _ = std::fs::remove_file(&p2);
+    let _ = std::fs::remove_file(&p3);
     let gfa_txt = String::from_utf8(gfa).unwrap();
     let gfafile = f1 == gfa_txt.as_bytes();
-    format!("gfa={}|json={}|gfatags={}|jsonok={}|gfafile={}", esc(&gfa_txt), esc(&jtxt), esc(&f2), jsonok as u8, gfafile as u8)
+    format!("gfa={}|json={}|gfatags={}|dot={}|dbg={}|jsonok={}|gfafile={}", esc(&gfa_txt), esc(&jtxt), esc(&f2), esc(&f3), esc(&dbg.join("\n")).replace('|', "\\p"), jsonok as u8, gfafile as u8)
 }
 
 fn persist_kmer<K: Raw + serde::Serialize + serde::de::DeserializeOwned>(raw: u128) -> String {
